@@ -259,3 +259,181 @@ func ruleMapDeref(rule string) RuleFn {
 		}
 	}
 }
+
+// ruleErrPropagates: a failure reported by a callee is never lost.
+func ruleErrPropagates(rule string) RuleFn {
+	return func(c *an.Ctx) {
+		c.Rule(rule, "G-err-propagates (path-sensitive): in the resolution and execution code (param.go, the three executors, ExtractList), from the non-nil edge of the error result of a call into dig's own code or through a dig interface (provider.Call, decorator.Call, param.Build, BuildList, callGroupProviders, callGroupDecorators, ExtractList, shallowCheckDependencies, verifyAcyclic, newParamList) no return with a nil error is reachable while that error value is still the current one - except the zero-value returns of paramSingle.Build that G-optzero governs. A failure cannot be overwritten by a later success or dropped by a restructured loop")
+		files := map[string]bool{}
+		n := 0
+		for _, fn := range c.P.Funcs {
+			if fn.Pkg != c.P.Dig {
+				continue
+			}
+			pos := c.P.Fset.Position(fn.Pos()).Filename
+			base := pos[strings.LastIndex(pos, "/")+1:]
+			if base != "param.go" && base != "constructor.go" && base != "decorate.go" && base != "invoke.go" && base != "result.go" {
+				continue
+			}
+			files[base] = true
+			if errResultIndex(fn) == -2 {
+				continue
+			}
+			an.Instrs(fn, func(in ssa.Instruction) {
+				k, ok := in.(*ssa.Call)
+				if !ok {
+					return
+				}
+				cc := k.Common()
+				var idx int
+				if cc.IsInvoke() {
+					if !strings.HasPrefix(an.CalleeName(k), "invoke dig.") {
+						return
+					}
+					sig := cc.Method.Type().(*types.Signature)
+					res := sig.Results()
+					if res.Len() == 0 || res.At(res.Len()-1).Type().String() != "error" {
+						return
+					}
+					idx = res.Len() - 1
+					if res.Len() == 1 {
+						idx = -1
+					}
+				} else {
+					callee := an.StaticCallee(k)
+					if callee == nil || !c.P.InModule(callee) {
+						return
+					}
+					idx = errResultIndex(callee)
+					if idx == -2 {
+						return
+					}
+				}
+				ne := an.NonNilErrEdges(fn, k, idx)
+				if len(ne) == 0 {
+					return
+				}
+				n++
+				var errVal ssa.Value = k
+				if idx >= 0 {
+					for _, r := range an.Referrers(k) {
+						if ex, ok := r.(*ssa.Extract); ok && ex.Index == idx {
+							errVal = ex
+						}
+					}
+				}
+				cons := fmt.Sprintf("%s: a failure of %s is never lost", an.ShortName(fn), an.CalleeName(k))
+				bad := false
+				for _, e := range ne {
+					e := e
+					res := an.PathSens(an.PSQuery{Fn: fn, StartEdge: &e, Target: func(i ssa.Instruction, env *an.PEnv) bool {
+						r, ok := i.(*ssa.Return)
+						if !ok || i.Block().Comment == "recover" {
+							return false
+						}
+						last := r.Results[len(r.Results)-1]
+						v := env.Val(last)
+						if kc, isC := v.(*ssa.Const); isC && kc.IsNil() {
+							// the governed exception: zero value for an optional parameter
+							if zk, isK := an.Resolve(r.Results[0]).(*ssa.Call); isK && an.CalleeName(zk) == "reflect.Zero" && an.ShortName(fn) == "(dig.paramSingle).Build" {
+								return false
+							}
+							return true
+						}
+						return false
+					}, Kill: func(i ssa.Instruction, env *an.PEnv) bool {
+						// a re-execution of the same call starts a new history for its error
+						return false
+					}})
+					if res.Found != nil || res.Overflow {
+						bad = true
+						c.Bad(rule, cons, "after "+an.CalleeName(k)+" reported an error, a path reaches a successful return (the error is overwritten by a later call, or dropped): the consumer runs although a dependency failed or is missing", res.Found, an.BlockPath(c.P, res.Path))
+						break
+					}
+				}
+				_ = errVal
+				if !bad {
+					c.OK(rule, cons, "non-nil edge leads only to error returns", k)
+				}
+			})
+		}
+		c.Floor(rule, "tested error results of dig-internal calls", n, 15)
+	}
+}
+
+// ruleValueBlind: verdicts do not depend on the values user functions return.
+func ruleValueBlind(rule string) RuleFn {
+	return func(c *an.Ctx) {
+		c.Rule(rule, "W-value-inspect: dig looks inside the reflect.Values that user functions produced (Len, Index, IsNil, IsZero, IsValid, Interface, Field, Elem, Int, String, ...) only where that is part of delivering them: resultList.ExtractList (error results), Scope.Invoke (the returned error), resultGrouped.Extract (flatten), resultObject.Extract (fields), paramObject.Build (assembling dig.In), the two invokers; no other function branches on or inspects run-time values, so every dig-originated verdict is a function of types, keys and errors only and is the same under DryRun, whose fake results are zero values")
+		allowed := map[string]bool{
+			"(dig.resultList).ExtractList": true, "(*dig.Scope).Invoke": true, "(dig.resultGrouped).Extract": true,
+			"(dig.resultObject).Extract": true, "(dig.paramObject).Build": true, "dig.dryInvoker": true, "dig.defaultInvoker": true,
+			"dig.newConstructorNode": true, "dig.newDecoratorNode": true, "dig/internal/digreflect.InspectFunc": true,
+			"(*dig.Scope).Provide": true, "(*dig.Scope).Decorate": true,
+		}
+		inspect := map[string]bool{"Len": true, "Index": true, "IsNil": true, "IsZero": true, "IsValid": true, "Interface": true, "Field": true, "Elem": true,
+			"Int": true, "Uint": true, "Float": true, "String": true, "Bool": true, "MapIndex": true, "MapKeys": true, "NumField": true, "Cap": true, "Pointer": true, "Kind": true, "CanInterface": true}
+		n := 0
+		for _, fn := range c.P.Funcs {
+			if fn.Pkg != c.P.Dig {
+				continue
+			}
+			an.Instrs(fn, func(in ssa.Instruction) {
+				k, ok := in.(*ssa.Call)
+				if !ok {
+					return
+				}
+				f := an.StaticCallee(k)
+				if f == nil || f.Signature.Recv() == nil || !an.IsNamed(f.Signature.Recv().Type(), "reflect", "Value") || !inspect[f.Name()] {
+					return
+				}
+				n++
+				nm := an.ShortName(fn)
+				base := nm
+				if i := strings.Index(nm, "$"); i > 0 {
+					base = nm[:i]
+				}
+				c.Check(allowed[base] || privateHelperOf(c, fn, allowed, 0), rule, "reflect.Value."+f.Name()+" in "+nm, "delivery of results / entry validation", "dig inspects a run-time value ("+an.Norm(k.Common().Args[0])+"."+f.Name()+"()) in "+nm+": a verdict now depends on what user functions returned, so it differs under DryRun (zero values) or between runs", k, nil)
+			})
+		}
+		c.Floor(rule, "reflect.Value inspection sites", n, 8)
+	}
+}
+
+// ruleExportedFields: only exported struct fields enter parameter and result objects.
+func ruleExportedFields(rule string) RuleFn {
+	return func(c *an.Ctx) {
+		c.Rule(rule, "G-exported-fields: newParamObjectField and newResultObjectField return without error only on paths that cross the f.PkgPath == \"\" edge (the field is exported), whatever tags the field carries; newParamObject skips unexported fields only under ignore-unexported. reflect.Value.Set / Interface on a value obtained through an unexported field panics, and that panic would come from dig's own code outside any RecoverFromPanics guard")
+		for _, nm := range []string{"dig.newParamObjectField", "dig.newResultObjectField"} {
+			fn := c.Fn(rule, nm)
+			if fn == nil {
+				continue
+			}
+			g := an.NewGates().AddEdges(an.EdgesWhere(fn, an.FactIs(`(p:f.PkgPath == "")`, `(len(p:f.PkgPath) == 0)`))...)
+			cons := nm + " accepts exported fields only"
+			if g.Len() == 0 {
+				c.BadAt(rule, cons, "f.PkgPath is never tested", c.P.Pos(fn.Pos()), nil)
+				continue
+			}
+			bad := false
+			an.Instrs(fn, func(in ssa.Instruction) {
+				r, ok := in.(*ssa.Return)
+				if !ok || isErrorExit(r) || bad {
+					return
+				}
+				if hit, path := an.PathTo(fn, nil, an.IsInstr(r), g); hit != nil {
+					bad = true
+					c.Bad(rule, cons, "a field can be accepted without its exportedness having been checked (e.g. when a group tag is looked at first): building or extracting the object later panics in reflect on the unexported field", r, an.BlockPath(c.P, path))
+				}
+			})
+			if !bad {
+				c.OK(rule, cons, "every successful return is dominated by f.PkgPath == \"\"", fn.Blocks[0].Instrs[0])
+			}
+		}
+		// newParamObject: the only skip of a field with PkgPath != "" is under ignoreUnexported
+		if fn := c.Fn(rule, "dig.newParamObject"); fn != nil {
+			calls := methodCalls(fn, "dig.newParamObjectField")
+			c.Check(len(calls) == 1, rule, "dig.newParamObject hands every remaining field to newParamObjectField", "one call in the field loop", "fields are not all passed through newParamObjectField", nil, nil)
+		}
+	}
+}
